@@ -7,6 +7,7 @@
 
 pub mod rng;
 pub mod monitor;
+pub mod guard;
 pub mod oracle;
 pub mod gen;
 pub mod bridge;
